@@ -9,6 +9,8 @@ import Driver.Proto
     to_bit_order <order>
     binary_repr <ty> <v>                   ty ∈ u8,u16,u32,u64,usize,i8,i16,i32,i64,isize,bool
     repr_parse <ty> <v>                    parse the text back as the unsigned type of the same width, reinterpret
+    unpack_ref / pack_ref / roundtrip_ref  the same three operations answered on the reference lane semantics only
+                                           (arrays of more than ~600 elements by axis, where the pipeline model is too slow)
 
 order = none | E:big | E:little | S:<hex utf-8> (&str) | T:<hex utf-8> (String)
 The axis forms are computed twice — on the pipeline model of the crate's `apply_along_axis` (`alongPipe`) and on the
@@ -84,6 +86,18 @@ def handle (op : String) (args : List String) : Option String :=
   | "roundtrip", [a, ax, ord] => do
     let a ← parseBytes? a; let ax ← parseOpt? parseInt? ax; let ord ← parseOrder? ord
     some (both fun al => unpackBits al a ax none ord >>= fun u => packBits al u ax ord)
+  -- big inputs by axis: the pipeline model of `apply_along_axis` is quadratic with a large constant; these forms answer on
+  -- the reference lane semantics `alongRef` alone (theorems `alongRef_lifts`, `pack_unpack_axis_ref`, `unpack_axis_ref`)
+  | "unpack_ref", [a, ax, cnt, ord] => do
+    let a ← parseBytes? a; let ax ← parseOpt? parseInt? ax; let cnt ← parseOpt? parseInt? cnt
+    let ord ← parseOrder? ord
+    some (showRes showNatArr (unpackBits alongRef a ax cnt ord))
+  | "pack_ref", [a, ax, ord] => do
+    let a ← parseBytes? a; let ax ← parseOpt? parseInt? ax; let ord ← parseOrder? ord
+    some (showRes showNatArr (packBits alongRef a ax ord))
+  | "roundtrip_ref", [a, ax, ord] => do
+    let a ← parseBytes? a; let ax ← parseOpt? parseInt? ax; let ord ← parseOrder? ord
+    some (showRes showNatArr (unpackBits alongRef a ax none ord >>= fun u => packBits alongRef u ax ord))
   | "to_bit_order", [ord] => do
     let ord ← parseOrder? ord
     match ord with
